@@ -405,7 +405,7 @@ def run_model(pid, imports, exprs, prelude="", shard_size=250, timeout=900):
 # ----------------------------------------------------------------------------
 
 def scratch(name, clean=True):
-    d = os.path.join(BUILD, "scratch", name)
+    d = os.path.join(BUILD, "scratch" + _TAG, name)
     if clean and os.path.exists(d):
         shutil.rmtree(d, ignore_errors=True)
     os.makedirs(d, exist_ok=True)
